@@ -370,6 +370,18 @@ def decide(pid, pcfg, cfg, tier, seed, workdir, evidence):
     # ---- vacuity run
     vac = vacuity_check(gen, meta, my_fns)
 
+    # ---- thorough tier: the same obligations under other solver seeds (proof stability)
+    stability = None
+    if tier == "thorough":
+        stability = []
+        for sd in (7, 99):
+            r2 = run_verus(gen, extra=("--smt-option", f"smt.random_seed={sd}", "--smt-option", f"sat.random_seed={sd}"))
+            f2, h2, u2 = classify(r2["diags"], meta) if r2["json"] else ([], ["no result"], [])
+            stability.append({"seed": sd, "verified": (r2["json"] or {}).get("verification-results", {}).get("verified"),
+                              "failed_obligations": len(f2), "resource_limits": len(u2), "wall_s": round(r2["wall_s"], 1)})
+            if not failures and (f2 or u2 or h2):
+                cov["stability"] = stability
+                raise Undecided(f"proof instability: the obligations verify with the default seed but not with seed {sd}")
     # ---- Kani part
     kani_res = None
     if pcfg.get("kani"):
@@ -413,6 +425,8 @@ def decide(pid, pcfg, cfg, tier, seed, workdir, evidence):
     })
     if kani_res:
         cov["kani"] = kani_res["evidence"]
+    if stability is not None:
+        cov["stability"] = stability
     evidence["assumptions"] = cfg.get("global_assumptions", []) + pcfg.get("assumptions", [])
 
     # ---- verdict
